@@ -738,7 +738,7 @@ impl ViCut {
 		Some(match name {
 			"col" => Val::Num((self.current_buffer().cursor_col() + 1) as isize),
 			"line" => Val::Num((self.current_buffer().cursor_line_number() + 1) as isize),
-			"lines" => Val::Num(self.current_buffer().total_lines() as isize),
+			"lines" => Val::Num(self.current_buffer().line_count() as isize),
 			"pos" => Val::Num(self.current_buffer().cursor_byte_pos() as isize),
 			"buf_len" => Val::Num(self.current_buffer().buffer.len() as isize),
 			"selection" => Val::Str(self.current_buffer().selected_content().unwrap_or_default()),
